@@ -44,9 +44,18 @@ C18MonotoneU(nd) == IsRate(nd) /\ Adm(nd) /\ PrevRate(nd) =>
    LET pr == Nd(nd.parent) IN
    /\ (Ok(pr.st.borrow) /\ Ok(nd.st.borrow) => ValLe(pr.st.borrow, nd.st.borrow))
    /\ (Ok(pr.st.stable) /\ Ok(nd.st.stable) => ValLe(pr.st.stable, nd.st.stable))
-(* continuous, in particular at the kink: between two neighbouring utilisations the rate rises by no more  *)
-(* than the slopes allow (exact Lipschitz bound of the two linear pieces) plus last-place rounding         *)
-C18Continuous(nd) == IsRate(nd) /\ Adm(nd) /\ PrevRate(nd) /\ P(nd).uopt <= 1000 =>
+(* continuous at the kink: for two neighbouring utilisations around the kink (U_prev < Uopt <= U_cur) the rate   *)
+(* rises by no more than the two linear pieces allow over that distance (exact Lipschitz bound) plus last-place   *)
+(* rounding; a jump at the kink exceeds it as soon as the grid points are close (the chains contain Uopt -+ 1/ud) *)
+AroundKink(nd) == PrevRate(nd) /\ Nd(nd.parent).args.un * 1000 < P(nd).uopt * nd.args.ud /\ nd.args.un * 1000 >= P(nd).uopt * nd.args.ud
+C18Continuous(nd) == IsRate(nd) /\ Adm(nd) /\ AroundKink(nd) /\ P(nd).uopt <= 1000 =>
+   LET pr == Nd(nd.parent) p == P(nd) IN
+   /\ (Ok(pr.st.borrow) /\ Ok(nd.st.borrow) /\ ~pr.st.borrow.neg /\ ~nd.st.borrow.neg =>
+         StepAtMost(pr.st.borrow.vL, nd.st.borrow.vL, RiseBound(pr.args.un, nd.args.un, nd.args.ud, p.uopt, p.s1, p.s2), 2 * TolBorrow(p)))
+   /\ (Ok(pr.st.stable) /\ Ok(nd.st.stable) /\ ~pr.st.stable.neg /\ ~nd.st.stable.neg =>
+         StepAtMost(pr.st.stable.vL, nd.st.stable.vL, RiseBound(pr.args.un, nd.args.un, nd.args.ud, p.uopt, p.ss1, p.ss2), 2 * TolStable(p)))
+(* the same bound on every other neighbouring pair is conformance (the slopes are the configured ones), not C18 *)
+ConfRise(nd) == IsRate(nd) /\ Adm(nd) /\ PrevRate(nd) /\ ~AroundKink(nd) /\ P(nd).uopt <= 1000 =>
    LET pr == Nd(nd.parent) p == P(nd) IN
    /\ (Ok(pr.st.borrow) /\ Ok(nd.st.borrow) /\ ~pr.st.borrow.neg /\ ~nd.st.borrow.neg =>
          StepAtMost(pr.st.borrow.vL, nd.st.borrow.vL, RiseBound(pr.args.un, nd.args.un, nd.args.ud, p.uopt, p.s1, p.s2), 2 * TolBorrow(p)))
@@ -55,7 +64,7 @@ C18Continuous(nd) == IsRate(nd) /\ Adm(nd) /\ PrevRate(nd) /\ P(nd).uopt <= 1000
 (* lend rate never exceeds the borrow rate *)
 C18LendLeBorrow(nd) == IsRate(nd) /\ Adm(nd) /\ Ok(nd.st.lend) /\ Ok(nd.st.borrow) => ValLe(nd.st.lend, nd.st.borrow)
 
-Formulas == <<"Conf_Admit", "Conf_Util", "Conf_Borrow", "Conf_Stable", "Conf_Lend",
+Formulas == <<"Conf_Admit", "Conf_Util", "Conf_Borrow", "Conf_Stable", "Conf_Lend", "Conf_Rise",
               "C18_RateDefined", "C18_BaseAtZero", "C18_MonotoneU", "C18_Continuous", "C18_LendLeBorrow">>
 Holds(f, i) ==
   LET nd == Nd(i) IN
@@ -64,6 +73,7 @@ Holds(f, i) ==
     [] f = "Conf_Borrow" -> ConfBorrow(nd)
     [] f = "Conf_Stable" -> ConfStable(nd)
     [] f = "Conf_Lend" -> ConfLend(nd)
+    [] f = "Conf_Rise" -> ConfRise(nd)
     [] f = "C18_RateDefined" -> C18RateDefined(nd)
     [] f = "C18_BaseAtZero" -> C18BaseAtZero(nd)
     [] f = "C18_MonotoneU" -> C18MonotoneU(nd)
@@ -74,7 +84,7 @@ Judge == \A k \in 1..Len(Formulas) : Holds(Formulas[k], cur) \/ PrintT(<<"FAIL",
 Count(Pred(_)) == Cardinality({i \in 1..NLog : Pred(Nd(i))})
 IsAdmRate(nd)  == IsRate(nd) /\ Adm(nd)
 IsPair(nd)     == IsAdmRate(nd) /\ PrevRate(nd) /\ Ok(nd.st.borrow) /\ Ok(Nd(nd.parent).st.borrow)
-IsKinkPair(nd) == IsPair(nd) /\ Nd(nd.parent).args.un * 1000 < P(nd).uopt * nd.args.ud /\ nd.args.un * 1000 >= P(nd).uopt * nd.args.ud
+IsKinkPair(nd) == IsPair(nd) /\ AroundKink(nd)
 IsZeroU(nd)    == IsAdmRate(nd) /\ nd.args.un = 0
 IsRejected(nd) == nd.a = "Params" /\ ~nd.st.admitted
 IsUndefined(nd) == IsAdmRate(nd) /\ ~Ok(nd.st.borrow)
